@@ -43,7 +43,7 @@ type c17plan struct {
 
 func c17(c *wk.Ctx) {
 	c.Note("rule", "each plan: one endpoint over a harness stream, 2-12 goroutines released by a barrier doing PRNG-chosen MakeHandler / AddHandler / ReceiveAny (filters: never/always/pattern x keep/self-remove after n, with scheduling yields inside the filter), RemoveHandler (live, stale, unknown, negative ids), peer frames, then local Close() or peer close, possibly concurrent with further operations; in a quarter of the plans the stream's Close reports an error although it closes. Oracle at quiescence (decided by the goroutine-state quiescence detector, not a timeout): every handler whose MakeHandler returned before shutdown started has closer==1 and queue closed once; others <=1; no filter match after the closer ran; RemoveHandler of unknown/removed ids returns an error; an id is never handed out while its previous holder is still open; no panic (child crash), no deadlock; stream blocked-reply = the connection is shut down (locally or by the peer) while the endpoint is blocked writing a 'consumer blocked' reply to a peer that does not read (bounded harness stream): the shutdown must complete and every handler be closed once. Stream register-burst = 12 rounds per case of 4-16 goroutines spinning on a barrier and then registering 1-4 handlers each on a fresh endpoint (some earlier handlers removed first, so that freed slots are reused): identifiers held at the same time are pairwise distinct and Close() runs every close callback once. Stream unknown-ids = with 0-25 handlers registered and a few removed, RemoveHandler of every id from -3 to n+24 that is not held returns an error, does not panic and closes nothing. Distinct non-trivial = distinct plans in which at least two goroutines operated on the handler table and shutdown closed at least one handler.")
-	c.Cases("plan", c.Pick(5000, 600000), func(i int, rng *rand.Rand) { c17one(c, i, rng) })
+	c.Cases("plan", c.Pick(8000, 600000), func(i int, rng *rand.Rand) { c17one(c, i, rng) })
 	c.Cases("unknown-ids", c.Pick(300, 20000), func(i int, rng *rand.Rand) { c17unknown(c, i, rng) })
 	c.Cases("register-burst", c.Pick(150, 10000), func(i int, rng *rand.Rand) { c17burst(c, i, rng) })
 	c.Cases("blocked-reply", c.Pick(60, 10000), func(i int, rng *rand.Rand) { c17blocked(c, i, rng) })
